@@ -41,6 +41,11 @@ def run(ctx):
                  "M7": "the detector result is compared with None before arithmetic",
                  "M8": "names / attributes / signatures reachable from each multi_knee entry point resolve; the slot receives exactly the five knee functions"}.items():
         res.rule(k, v)
+    res.rule("M9", "helpers the gate relies on keep their contract: smape_points / linear_r2_points == the metric of (y, endpoint line), "
+                   "linear_fit_points == the line through the end points; detectors store no float into an array of the input's dtype")
+    from .c16 import helper_contracts
+    helper_contracts(rc, "M9", ("smape_points", "linear_r2_points", "linear_fit_points"))
+    d.dtype_guard(rc, "M9", DETECTORS)
     _driver(rc)
     # ---- M6 ---------------------------------------------------------------------
     d.curvature(rc, "M6", None)
